@@ -191,4 +191,71 @@ theorem neg_mixed_fraction_parse (i n d : String) (g : Nat) :
       some (.bop .minus (.neg (.num i)) (.bop .div (.num n) (.num d)), []) := by
   simp [run, leftLoop, symHead, isNum]
 
+/-! ### number-unit juxtaposition (token level, any number / identifier strings other than `%`) -/
+
+theorem jux_add (a u b v : String) (hu : u ≠ "%") (hv : v ≠ "%") (g : Nat) :
+    run (g + 60) .statements [.num a, .ident u, .sym .add, .num b, .ident v] =
+      some (.bop .plus (.applyMul (.num a) (.ident u)) (.applyMul (.num b) (.ident v)), []) := by
+  simp [run, leftLoop, symHead, isNum, isApplyMul, hu, hv]
+
+theorem jux_sub (a u b v : String) (hu : u ≠ "%") (hv : v ≠ "%") (g : Nat) :
+    run (g + 60) .statements [.num a, .ident u, .sym .sub, .num b, .ident v] =
+      some (.bop .minus (.applyMul (.num a) (.ident u)) (.applyMul (.num b) (.ident v)), []) := by
+  simp [run, leftLoop, symHead, isNum, isApplyMul, hu, hv]
+
+theorem jux_shl (a u b v : String) (hu : u ≠ "%") (hv : v ≠ "%") (g : Nat) :
+    run (g + 60) .statements [.num a, .ident u, .sym .shl, .num b, .ident v] =
+      some (.bop .shl (.applyMul (.num a) (.ident u)) (.applyMul (.num b) (.ident v)), []) := by
+  simp [run, leftLoop, symHead, isNum, isApplyMul, hu, hv]
+
+theorem jux_shr (a u b v : String) (hu : u ≠ "%") (hv : v ≠ "%") (g : Nat) :
+    run (g + 60) .statements [.num a, .ident u, .sym .shr, .num b, .ident v] =
+      some (.bop .shr (.applyMul (.num a) (.ident u)) (.applyMul (.num b) (.ident v)), []) := by
+  simp [run, leftLoop, symHead, isNum, isApplyMul, hu, hv]
+
+theorem jux_bitAnd (a u b v : String) (hu : u ≠ "%") (hv : v ≠ "%") (g : Nat) :
+    run (g + 60) .statements [.num a, .ident u, .sym .bitAnd, .num b, .ident v] =
+      some (.bop .bitAnd (.applyMul (.num a) (.ident u)) (.applyMul (.num b) (.ident v)), []) := by
+  simp [run, leftLoop, symHead, isNum, isApplyMul, hu, hv]
+
+theorem jux_bitXor (a u b v : String) (hu : u ≠ "%") (hv : v ≠ "%") (g : Nat) :
+    run (g + 60) .statements [.num a, .ident u, .sym .bitXor, .num b, .ident v] =
+      some (.bop .bitXor (.applyMul (.num a) (.ident u)) (.applyMul (.num b) (.ident v)), []) := by
+  simp [run, leftLoop, symHead, isNum, isApplyMul, hu, hv]
+
+theorem jux_bitOr (a u b v : String) (hu : u ≠ "%") (hv : v ≠ "%") (g : Nat) :
+    run (g + 60) .statements [.num a, .ident u, .sym .bitOr, .num b, .ident v] =
+      some (.bop .bitOr (.applyMul (.num a) (.ident u)) (.applyMul (.num b) (.ident v)), []) := by
+  simp [run, leftLoop, symHead, isNum, isApplyMul, hu, hv]
+
+theorem jux_comb (a u b v : String) (hu : u ≠ "%") (hv : v ≠ "%") (g : Nat) :
+    run (g + 60) .statements [.num a, .ident u, .sym .comb, .num b, .ident v] =
+      some (.bop .comb (.applyMul (.num a) (.ident u)) (.applyMul (.num b) (.ident v)), []) := by
+  simp [run, leftLoop, symHead, isNum, isApplyMul, hu, hv]
+
+theorem jux_perm (a u b v : String) (hu : u ≠ "%") (hv : v ≠ "%") (g : Nat) :
+    run (g + 60) .statements [.num a, .ident u, .sym .perm, .num b, .ident v] =
+      some (.bop .perm (.applyMul (.num a) (.ident u)) (.applyMul (.num b) (.ident v)), []) := by
+  simp [run, leftLoop, symHead, isNum, isApplyMul, hu, hv]
+
+/-- juxtaposition and `*` / `/` share a level and group from the left -/
+theorem jux_mul (a u b v : String) (hu : u ≠ "%") (hv : v ≠ "%") (g : Nat) :
+    run (g + 60) .statements [.num a, .ident u, .sym .mul, .num b, .ident v] =
+      some (.apply (.bop .mul (.applyMul (.num a) (.ident u)) (.num b)) (.ident v), []) ∧
+    run (g + 60) .statements [.num a, .ident u, .sym .div, .num b, .ident v] =
+      some (.apply (.bop .div (.applyMul (.num a) (.ident u)) (.num b)) (.ident v), []) ∧
+    run (g + 60) .statements [.num a, .ident u, .ident v] =
+      some (.applyMul (.applyMul (.num a) (.ident u)) (.ident v), []) := by
+  refine ⟨?_, ?_, ?_⟩ <;> simp [run, leftLoop, symHead, isNum, isApplyMul, hu, hv]
+
+/-- `^`, `!` and unary minus bind tighter than juxtaposition -/
+theorem jux_tighter (a u k : String) (hu : u ≠ "%") (g : Nat) :
+    run (g + 60) .statements [.num a, .ident u, .sym .pow, .num k] =
+      some (.apply (.num a) (.bop .pow (.ident u) (.num k)), []) ∧
+    run (g + 60) .statements [.num a, .ident u, .sym .fact] =
+      some (.applyMul (.num a) (.fact (.ident u)), []) ∧
+    run (g + 60) .statements [.sym .sub, .num a, .ident u] =
+      some (.apply (.neg (.num a)) (.ident u), []) := by
+  refine ⟨?_, ?_, ?_⟩ <;> simp [run, leftLoop, symHead, isNum, isApplyMul, hu]
+
 end Fend.Parser
